@@ -54,7 +54,7 @@ Qed.
 
 Lemma bstep_exit s t s' : ExitInv s -> bstep s t = Some s' -> ExitInv s'.
 Proof.
-  intros [E1 E2] H. destruct t as [|k|k|]; cbn [BatchConc.bstep] in H.
+  intros [E1 E2] H. destruct t as [|k|k| |]; cbn [BatchConc.bstep] in H.
   - destruct (mpc s) eqn:Hm.
     + assert (closed s = false) by (destruct (closed s); auto; specialize (E1 eq_refl); congruence).
       destruct (adding s); [destruct (Nat.ltb (enq s - deq s) qcap)|destruct (Nat.ltb (enq s) (nitems items))];
@@ -75,6 +75,7 @@ Proof.
       * rewrite nth_error_set_nth_ne in H' by exact Hne. eauto.
   - destruct (nth_error (ws s) k) as [[|i pc|]|] eqn:Hk; try discriminate.
     destruct (closed s) eqn:Hc; inv H. split; cbn; auto.
+  - inv H. split; cbn; auto.
   - inv H. split; cbn; auto.
 Qed.
 
@@ -119,19 +120,19 @@ Proof.
 Qed.
 
 (* C11 / C08: no deadlock.  In every reachable state in which the submitter has not returned,
-   some thread of the pool can take a step. *)
+   some thread of the pool (not the environment's cancel, not the observer's note) can take a step. *)
 Lemma no_deadlock_lemma s :
-  BInv s -> ExitInv s -> mpc s <> MRet -> exists t, t <> TCancel /\ bstep s t <> None.
+  BInv s -> ExitInv s -> mpc s <> MRet -> exists t, t <> TCancel /\ t <> TNote /\ bstep s t <> None.
 Proof.
   intros B [E1 E2] Hm.
   assert (Hnc : closed s = false) by (destruct (closed s); auto; specialize (E1 eq_refl); contradiction).
   assert (Hlen : length (ws s) = nworkers) by apply B.
   (* a running worker can always step *)
-  assert (Run : (exists k i pc, nth_error (ws s) k = Some (WRun i pc)) -> exists t, t <> TCancel /\ bstep s t <> None).
-  { intros [k [i [pc Hk]]]. exists (TWorker k). split; [discriminate|]. cbn [BatchConc.bstep]. rewrite Hk. discriminate. }
+  assert (Run : (exists k i pc, nth_error (ws s) k = Some (WRun i pc)) -> exists t, t <> TCancel /\ t <> TNote /\ bstep s t <> None).
+  { intros [k [i [pc Hk]]]. exists (TWorker k). split; [discriminate|]. split; [discriminate|]. cbn [BatchConc.bstep]. rewrite Hk. discriminate. }
   (* an idle worker can receive when the queue is not empty *)
-  assert (Idle : deq s < enq s -> (exists k, nth_error (ws s) k = Some WIdle) -> exists t, t <> TCancel /\ bstep s t <> None).
-  { intros Hq [k Hk]. exists (TWorker k). split; [discriminate|]. cbn [BatchConc.bstep]. rewrite Hk.
+  assert (Idle : deq s < enq s -> (exists k, nth_error (ws s) k = Some WIdle) -> exists t, t <> TCancel /\ t <> TNote /\ bstep s t <> None).
+  { intros Hq [k Hk]. exists (TWorker k). split; [discriminate|]. split; [discriminate|]. cbn [BatchConc.bstep]. rewrite Hk.
     apply Nat.ltb_lt in Hq. rewrite Hq. discriminate. }
   assert (NoExit : ~ (forall k w, nth_error (ws s) k = Some w -> w = WExit)).
   { intros H. destruct (ws s) as [|w t] eqn:Ew; [cbn in Hlen; lia|].
@@ -141,14 +142,14 @@ Proof.
   - (* MLoop *)
     destruct (adding s) eqn:Ha.
     + destruct (Nat.ltb (enq s - deq s) qcap) eqn:Hq.
-      * exists TMain. split; [discriminate|]. cbn [BatchConc.bstep]. rewrite Hmp, Ha, Hq. discriminate.
+      * exists TMain. split; [discriminate|]. split; [discriminate|]. cbn [BatchConc.bstep]. rewrite Hmp, Ha, Hq. discriminate.
       * apply Nat.ltb_ge in Hq.
         destruct (ws_cases (ws s)) as [H|[H|H]]; [apply Run; exact H|apply Idle; [lia|exact H]|contradiction].
-    + exists TMain. split; [discriminate|]. cbn [BatchConc.bstep]. rewrite Hmp, Ha.
+    + exists TMain. split; [discriminate|]. split; [discriminate|]. cbn [BatchConc.bstep]. rewrite Hmp, Ha.
       destruct (Nat.ltb (enq s) (nitems items)); discriminate.
   - (* MWait *)
     destruct (Nat.eqb (wgc s) 0) eqn:Hw.
-    + exists TMain. split; [discriminate|]. cbn [BatchConc.bstep]. rewrite Hmp, Hw. discriminate.
+    + exists TMain. split; [discriminate|]. split; [discriminate|]. cbn [BatchConc.bstep]. rewrite Hmp, Hw. discriminate.
     + apply Nat.eqb_neq in Hw. rewrite (I_wg _ _ _ B) in Hw.
       destruct (I_main _ _ _ B) as [_ Ha]; [rewrite Hmp; discriminate|]. rewrite Ha in Hw.
       destruct (Nat.eq_dec (count_run (ws s)) 0) as [Hz|Hz].
@@ -157,7 +158,7 @@ Proof.
         -- apply Idle; [lia|exact H].
         -- contradiction.
       * apply Run. apply count_run_pos. exact Hz.
-  - exists TMain. split; [discriminate|]. cbn [BatchConc.bstep]. rewrite Hmp. discriminate.
+  - exists TMain. split; [discriminate|]. split; [discriminate|]. cbn [BatchConc.bstep]. rewrite Hmp. discriminate.
 Qed.
 
 (* ------------------------------------------------------------ the limit is fully usable *)
